@@ -64,16 +64,25 @@ def all_paths(g):
     return out
 
 
+PRESENT_VARS = set()
+
+
 def present_map(g):
     """name -> identity digest (type + payload) of every block/region in the hierarchy;
-    also the list of names bound more than once."""
+    also the list of names bound more than once.  As a side effect PRESENT_VARS
+    holds the control variables used anywhere in the hierarchy."""
     m = {}
     dups = []
+    PRESENT_VARS.clear()
     for _o, _G, name, b, _d in hier.iter_hier(g):
         ident = [type(b).__name__, hier.payload_of(b)]
         if name in m:
             dups.append(name)
         m[name] = jdigest(ident)
+        if isinstance(b, SyntheticBranch):
+            PRESENT_VARS.add(b.variable)
+        elif isinstance(b, SyntheticAssignment):
+            PRESENT_VARS.update(b.variable_assignment.keys())
     return m, dups
 
 
@@ -320,7 +329,7 @@ def _graph_has(g):
     return sorted(has)
 
 
-def check_names_after_op(w, ev_start, present_before, opdesc):
+def check_names_after_op(w, ev_start, present_before, opdesc, vars_before=frozenset()):
     """C18 invariants 1 and 2 after one operation."""
     events = ISSUED[ev_start:]
     w.stats["names_observed"] += len(events)
@@ -335,6 +344,12 @@ def check_names_after_op(w, ev_start, present_before, opdesc):
                    "%s(%r) returned %s, the name of a block/region already present in the hierarchy (op %s)" % (
                        meth, kind, name, opdesc),
                    {"after_restart": w.after_restart})
+        elif meth == "new_var_name" and name in vars_before:
+            # the first sentence of the statement covers variable names too: a
+            # variable that is in use in the graph was handed out before for it
+            w.viol("C18", "variable-collides-with-present-variable", "after=%s" % after, name,
+                   "%s(%r) returned %s, a control variable already used in the hierarchy (op %s)" % (
+                       meth, kind, name, opdesc), {"after_restart": w.after_restart})
         if meth == "new_var_name" and name in w.present_vars_at_restart:
             w.var_reuse_after_restart += 1
         now_in_op.add(name)
@@ -638,6 +653,7 @@ def apply_op(w, op, conf):
     kind = op["op"]
     ev0 = len(ISSUED)
     present_before, _d = present_map(w.g)
+    vars_before = frozenset(PRESENT_VARS)
     outcome = None
     if kind == "stage":
         outcome = do_stage(w)
@@ -673,7 +689,7 @@ def apply_op(w, op, conf):
             w.issued.add(name)
         w.stats["names_observed"] += len(ISSUED) - ev0
     else:
-        check_names_after_op(w, ev0, present_before, kind)
+        check_names_after_op(w, ev0, present_before, kind, vars_before)
     return outcome
 
 
